@@ -127,15 +127,22 @@ Section Goulard.
         (if Nat.eqb (iv ij) (jv ij) then 1 else 2) * wt_val ij ip * t * t
       else 0)).
 
+  (* "value = aic - alphak * sum_ipadir fk * mp": the new sill term of the pair of variables ij, before truncation *)
+  Definition cc_entry (icov : nat) (f mp1 : mat) (ij : nat) : Q :=
+    aic icov ij - alphak icov ij * sumn npadir (fun ip => get f ij ip * get mp1 ij ip).
+  (* the part of the criterion that depends on the sill term s of structure icov for the pair ij (mp1 = the other structures) *)
+  Definition entry_crit (icov : nat) (mp1 : mat) (ij : nat) (s : Q) : Q :=
+    sumn npadir (fun ip => if wt_def ij ip
+                           then let t := get (g_gg c) ij ip - get mp1 ij ip - s * get (ge_of icov) ij ip in wt_val ij ip * (t * t)
+                           else 0).
+
   (* one structure of one iteration                                          AModelOptimSills.cpp:924-989 *)
   Definition step_icov (fks : list mat) (icov : nat) (st : gstate) : option gstate :=
     let S0 := nth icov (g_sill st) [] in
     let ge := ge_of icov in
     let mp1 := mkr nvs2 npadir (fun ij ip => get (g_mp st) ij ip - get S0 (iv ij) (jv ij) * get ge ij ip) in
     let f := nth icov fks [] in
-    let cc := mkr n n (lowsym (fun i j =>
-                let ij := tri i j in
-                aic icov ij - alphak icov ij * sumn npadir (fun ip => get f ij ip * get mp1 ij ip))) in
+    let cc := mkr n n (lowsym (fun i j => cc_entry icov f mp1 (tri i j))) in
     match eig (g_calls st) cc with
     | None => None                                                           (* "if (cc.computeEigen()) return 1" *)
     | Some (lam, V) =>
